@@ -81,41 +81,50 @@ def match_table(prog: Program) -> RuleResult:
     # type filter rule
     g = prog.method(aa.qual, "is_type_filter_needed", inherited=False)
     paths = explore(prog, g, [Sym("self")], inline=lambda q: False)
-    T1, T2 = ("truth", "self.attr._type_"), ("truth", "self.assigned_value.type_")
+    def side(t: str) -> str:
+        if "assigned_value" in t:
+            return "P"
+        if "attr" in t:
+            return "A"
+        raise AnalysisError(f"MATCH-TABLE: type-filter rule compares {t}")
+
+    # relation between the pattern's type P and the attribute's declared type A
+    RELS = {"same": dict(P_le_A=True, A_le_P=True), "pattern-is-subtype": dict(P_le_A=True, A_le_P=False),
+            "pattern-is-supertype": dict(P_le_A=False, A_le_P=True), "unrelated": dict(P_le_A=False, A_le_P=False)}
     for known_attr in (False, True):
         for has_type in (False, True):
-            for same in (False, True):
-                for sub in (False, True):
-                    if not known_attr and (same or sub):
-                        continue
-                    if not has_type and (same or sub):
-                        continue
-                    if same and not sub:
-                        continue  # a class is a subclass of itself
-                    outs = set()
-                    for val, out, _ in paths:
-                        ok = True
-                        for atom, value in val.items():
-                            if atom[0] == "truth" and atom[1] in ("self.attr._type_", "attr_type"):
-                                ok = ok and value == known_attr
-                            elif atom[0] == "truth" and atom[1] == "self.assigned_value.type_":
-                                ok = ok and value == has_type
-                            elif atom[0] == "is":
-                                ok = ok and value == same
-                            elif atom[0] == "issubclass":
-                                ok = ok and value == sub
-                            else:
-                                raise AnalysisError(f"MATCH-TABLE: type-filter rule consults {atom}")
-                        if ok:
-                            v = out[1]
-                            if isinstance(v, (Sym, App)):
-                                # a symbolic result is used for its truth: look it up in this path's valuation
-                                v = val.get(("truth", repr(v)), repr(v))
-                            outs.add(bool(v) if not isinstance(v, str) else v)
-                    want = (not known_attr) or (has_type and not same and sub)
-                    lab = f"attr_type_known={int(known_attr)},pattern_type={int(has_type)},same={int(same)},subclass={int(sub)}"
-                    r.check(outs == {want}, f"AttributeAssignment.is_type_filter_needed#{lab}", site(g), lab, f"{want}",
-                            f"{lab}: code says {sorted(map(str, outs))}, a type filter is needed exactly when the attribute's static type is unknown or the pattern names a strict subtype ({want})")
+            for rel, facts in RELS.items():
+                if not (known_attr and has_type) and rel != "unrelated":
+                    continue
+                outs = set()
+                for val, out, _ in paths:
+                    ok = True
+                    for atom, value in val.items():
+                        if atom[0] == "truth" and atom[1] in ("self.attr._type_", "attr_type"):
+                            ok = ok and value == known_attr
+                        elif atom[0] == "truth" and atom[1] == "self.assigned_value.type_":
+                            ok = ok and value == has_type
+                        elif atom[0] == "is":
+                            ok = ok and value == (rel == "same")
+                        elif atom[0] == "issubclass":
+                            a, b = side(atom[1]), side(atom[2])
+                            ok = ok and value == (True if a == b else facts[f"{a}_le_{b}"])
+                        else:
+                            raise AnalysisError(f"MATCH-TABLE: type-filter rule consults {atom}")
+                    if ok:
+                        v = out[1]
+                        if isinstance(v, App) and v.fn == "bool" and len(v.args) == 1:
+                            v = v.args[0]
+                        if isinstance(v, (Sym, App)):
+                            # a symbolic result is used for its truth: look it up in this path's valuation
+                            v = val.get(("truth", repr(v)), repr(v))
+                        outs.add(bool(v) if not isinstance(v, str) else v)
+                # the elements of the attribute are known to be A; they have to be checked against P unless every A is a P
+                want = (not known_attr) or (has_type and not facts["A_le_P"])
+                lab = f"attr_type_known={int(known_attr)},pattern_type={int(has_type)},relation={rel if known_attr and has_type else 'n/a'}"
+                r.check(outs == {want}, f"AttributeAssignment.is_type_filter_needed#{lab}", site(g), lab, f"{want}",
+                        f"{lab}: code says {sorted(map(str, outs))}; a nested match constrains the attribute value's type, so a type filter is needed unless the attribute's declared type "
+                        f"already guarantees the pattern's type ({want}) - main=match(Other)(name='a') on a Part-typed attribute must not return the boxes whose Part is named 'a'")
     # flatten + filter in resolve
     h = prog.method(aa.qual, "resolve", inherited=False)
     paths = explore(prog, h, [Sym("self"), Sym("parent_match")], inline=lambda q: False)
@@ -149,6 +158,45 @@ def match_table(prog: Program) -> RuleResult:
                 r.check(ok, f"AttributeAssignment.resolve#{lab}", site(h), lab, f"nested match resolved on {target}, type filter {'on' if need else 'off'}",
                         f"{lab}: nested match is resolved on {repr(inner[0].args[0]) if inner else '?'} (flatten={flat}), type filters {len(filt)}; elements of a collection attribute must be "
                         f"constrained one by one ({target}) and filtered by type exactly when needed")
+    return r
+
+
+def match_iter(prog: Program) -> RuleResult:
+    """'a literal means equality (membership for collection attributes)': which of the two the pattern compiler builds is
+    decided by Attribute._is_iterable_.  Its value is derived from /repo's source for every annotation category of the
+    supported grammar (type model of C17 / C06) and compared with what the annotation says: a collection or not."""
+    from .. import typemodel as tm
+    from ..dtable import AbstractEval, NeedAtom, _Raise
+
+    r = RuleResult("MATCH-ITER", "an attribute is treated as a collection exactly when its annotation is an iterable container", floor=10)
+    at = prog.cls("symbolic.Attribute")
+    wf = prog.cls("wrapped_field.WrappedField")
+    f = prog.lookup(at.qual, "_is_iterable_")
+    if f is None:
+        raise AnalysisError("MATCH-ITER: Attribute._is_iterable_ vanished")
+    selfn = f.params[0]
+    for cat, anns in list(tm.CATEGORIES.items()) + list(tm.CLASSIFY_ONLY.items()):
+        got = []
+        for ann in anns:
+            ae = AbstractEval(prog, {("truth", f"{selfn}._wrapped_field_"): True}, const_attrs={f"{selfn}._wrapped_field_.resolved_type": ann}, max_depth=12,
+                              inline=lambda q: not q.endswith("Attribute._wrapped_field_"))
+            ae.globals = dict(tm.GLOBALS)
+            ae.funcs = dict(tm.FUNCS)
+            ae.funcs["all"] = lambda g: all(g)
+            ae.type_of[selfn] = at.qual
+            ae.type_of[f"{selfn}._wrapped_field_"] = wf.qual
+            try:
+                got.append(ae.call_func(f, [Sym(selfn)], {}))
+            except _Raise as x:
+                got.append(("raise", x.exc))
+            except tm.TypeErr:
+                got.append(("raise", "TypeError"))
+            except NeedAtom as na:
+                raise AnalysisError(f"MATCH-ITER: Attribute._is_iterable_ consults {na.atom}, outside the typing facts tabled in the checker")
+        want = [isinstance(a, tm.Gen) and a.origin is not tm.UNION and bool(getattr(a.origin, "iterable", False)) for a in anns]
+        r.check([g if isinstance(g, tuple) else bool(g) for g in got] == want, f"Attribute._is_iterable_#{cat}", site(f), ", ".join(map(repr, anns)), f"{got}",
+                f"for {cat} annotations {[repr(a) for a in anns]} the source says {got}, the annotations say {want}: a literal against a collection the compiler takes for a scalar "
+                f"becomes `attr == literal` instead of membership (tags='t1' never matches tags=['t1'])")
     return r
 
 
@@ -268,6 +316,6 @@ def run(prog: Program, tier: str) -> List[RuleResult]:
     from .c01 import ep_quant, ep_thread
 
     # match_any compiles to the existential quantifier: one answer per binding of the free variables
-    return [match_table(prog), match_ops(prog), ident_dedup(prog), domain_cache(prog), ep_quant(prog),
+    return [match_table(prog), match_iter(prog), match_ops(prog), ident_dedup(prog), domain_cache(prog), ep_quant(prog),
             # selected inner parts are evaluated under the bindings of the matched element: the row threading of C01
             ep_thread(prog)]
